@@ -103,6 +103,8 @@ func runC20(c *Ctx) {
 	c.rule("value-pipeline", "transforming source Value and transforming decoder Decode: translate, call the inner with the translated type, reverse-translate its value with the same transformer, return that; each of the three errors is tested and returned (wrapped) with a zero value", 6)
 	c.rule("watch-reverse-translates", "the concrete watch arguments handed to a wrapped watcher declare (selection depth 1, not promoted from the embedded original) every WatchArgs method that carries a reflect.Value; each reverse-translates the value with the transformer whose TranslateType produced the inner type, returns the error if that fails, and forwards to the same-named method of the wrapped arguments", 3)
 	c.rule("reverse-derefs", "Transformer.ReverseTranslate never unpacks a value of pointer kind: a pointer to the translated struct (what Blank and pointer-returning sources hand back, and what dials dereferences natively) is dereferenced first", 1)
+	c.rule("reply-capacity", "(shared with C07) the blocking report a Blank's SetSource makes carries a freshly made reply channel with room for the one answer", 1)
+	c.rule("zero-only-for-unset", "(shared with C10) on the way back through a wrapper reflect.Zero (unset) is produced only under a true nil-ness test: an explicitly empty list stays a non-nil empty list, as it does natively", 7)
 	c.rule("no-self-call", "no wrapper method calls itself", 1)
 	c.rule("blank-delegation", "Blank.Value delegates exactly when an inner source is set, else returns a fresh zero of the requested type; SetSource refuses to replace a watching inner source before writing any field; Done forwards exactly when the inner source is not a Watcher and watch arguments are present; the inner Watch gets the saved Dials watch context, type and arguments", 5)
 	c.rule("setsource-order", "(shared with C07) Blank.SetSource assigns the inner source only after s.Value succeeded (a failed SetSource must not install the source), reports exactly that value with its own context, returns nil only after the report did, and starts the inner Watch afterwards", 4)
@@ -122,6 +124,8 @@ func runC20(c *Ctx) {
 	c20Pipeline(c, val, "("+modPath+".Source).Value", "value-pipeline")
 	c20Pipeline(c, dec, "("+modPath+".Decoder).Decode", "value-pipeline")
 	c20ReverseDerefs(c, "reverse-derefs")
+	c07ReplyCapacity(c)
+	c10ZeroOnlyUnset(c)
 
 	// ---- watch-reverse-translates -----------------------------------------------
 	waIface := w.named("", "WatchArgs")
